@@ -393,6 +393,7 @@ fn main() {
         let s = C03 { thorough };
         let mut o = Opts::new(tier, if thorough { 9 } else { 7 });
         o.min_depth = 3;
+        o.xcheck = tier == "thorough";
         o.rule = "construction through a factory with initial lists [], [I0], [I0,I1], [I0,I0], [I0,I1,I0], [I0,I1,A], [A,A,B], [I0,malformed_i], [malformed_i] (8 malformed shapes: empty, adjacent duplicate key, descending keys, all-zero key, zero weight, weights summing past u128, threshold 0, threshold total+1); then all rotation sequences over candidates {A,B,C(threshold==total),I0,I1, 8 malformed} x proof source {latest, older retained, outdated, never-installed, latest-signing-another-candidate, latest-signing-under-the-approval-command-tag} x bypass {no, operator, no auth, owner auth}; after every new state epoch(), signers_hash_by_epoch(e) for all e in 0..=epoch+1 and epoch_by_signers_hash(h) for all 13 candidate hashes are compared with the installed list".into();
         (s, o)
     });
